@@ -133,7 +133,7 @@ Lemma h_goto_spec sq x y z v s s' :
 Proof.
   intros Hsq H dist.
   destruct (Hsq _ (sumsq_nonneg (x - hx s) (y - hy s) (z - hz s))) as [Hd Hd0]. fold dist in Hd, Hd0.
-  unfold h_goto in H. fold dist in H.
+  unfold h_goto in H. destruct (hfly s) eqn:Hfl; cbn [negb] in H; [|discriminate]. fold dist in H.
   destruct (Qltb 0 dist) eqn:Hlt.
   - apply Qltb_true in Hlt.
     destruct (Qeq_bool (dflt v (dvel s)) 0) eqn:Hv; [discriminate|]. apply Qeq_bool_false_inv in Hv.
